@@ -224,3 +224,16 @@ class _Shl(Val):
         self.d, self.sh = d, sh
         self.ty = THelper("shl")
         self.t = None
+
+
+_install3 = install
+
+
+def install(reg):
+    _install3(reg)
+
+    def bn_ctor(eng, st, node):
+        if node.args or node.keywords:
+            raise OutOfSubset("BooleanNetwork(<args>)")
+        return Val(TNetObj, T.EmptyBN)
+    reg.global_calls["BooleanNetwork"] = bn_ctor
